@@ -50,11 +50,21 @@ RULE = ("histories of def (plain / ^:dynamic / ^:redef / ^:private) / redefiniti
         "colliding name pairs, length 4 over 5 step kinds for a-b/a_b, length <= 3 over 7 namespace step kinds, length 4 over 5, "
         "length <= 3 over 7 privacy step kinds, length <= 2 (+40 of length 3) over 6 step kinds on FILE-BACKED "
         "namespaces written to a scratch directory; random histories of length 5-12 beyond (read after every "
-        "step). munge: the real "
+        "step). Thread bindings (one thread): after (def ^:dynamic *v* ..) every history of length <= 3 (+200 of "
+        "length 4) over {redefinition with ^:dynamic, redefinition without, enter a binding of *v*, leave the "
+        "innermost binding, alter-var-root}, and 160 random histories of length 7-15 with nested bindings of two "
+        "dynamic Vars, attempts to bind a plain and a missing Var, redefinitions (mostly keeping, sometimes "
+        "dropping ^:dynamic), root mutations, in-ns / require between two namespaces; every def and every read is "
+        "compiled and run by the real compiler INSIDE the dynamic extent of the open bindings; alternately "
+        "through runtime.push_thread_bindings / pop_thread_bindings and through real "
+        "(basilisp.core/binding [ns/name v] (callback)) forms whose callback runs the following steps; the "
+        "general random histories also enter / leave bindings. munge: the real "
         "util.munge on every string of length <= 2 over 19 characters, the pool, all Python keywords and builtins "
         "with and without a trailing underscore, random strings. Non-trivial = a history of >= 2 steps in which "
         "some read yields a value; distinct = distinct JSON.")
 TRUSTED = ["CPython module globals and attribute access behave like the association list `mods` of C10/Names.v",
+           "threading.local: within one thread a Var's `_tl.bindings` and `_THREAD_BINDINGS` behave like the lists "
+           "`stacks` / `mframes` of C10/BNames.v (other threads: C11)",
            "the Var store (Var.intern / bind_root / alter_root, Namespace interns/refers/aliases) behaves like the "
            "cells of C10/Spec.v (their concurrency is C12's subject)",
            "keyword.kwlist and dir(builtins) of the running CPython (regenerated into Gen/Tables.v on every run)",
@@ -535,4 +545,36 @@ def extra_evidence(cases_, outs):
                     for x in row:
                         k = "value" if isinstance(x, int) else str(x)
                         obs[k] = obs.get(k, 0) + 1
-    return {"input_distribution": dist, "observation_kinds": obs}
+    return {"input_distribution": dist, "observation_kinds": obs, "thread_bindings": _binding_stats(cases_, outs)}
+
+
+def _binding_stats(cases_, outs):
+    """how much of the run happened inside open bindings (depth from the observed push / pop outcomes)"""
+    st = {"cases_with_open_binding": 0, "steps_inside": 0, "defs_inside": 0, "reads_inside": 0, "max_depth": 0,
+          "push_failed": 0, "pop_failed": 0, "via_binding_form": 0, "via_runtime_fns": 0}
+    for c, o in zip(cases_, outs):
+        if c["k"] != "hist" or not isinstance(o, dict) or "steps" not in o:
+            continue
+        depth, seen = 0, False
+        for s, r in zip(c["steps"], o["steps"]):
+            op = s["op"][0]
+            if op == "push":
+                if r["ok"]:
+                    depth += 1
+                    seen = True
+                else:
+                    st["push_failed"] += 1
+            elif op == "pop":
+                if depth > 0:
+                    depth -= 1
+                if not r["ok"]:
+                    st["pop_failed"] += 1
+            if depth > 0:
+                st["steps_inside"] += 1
+                st["defs_inside"] += op == "def"
+                st["reads_inside"] += sum(len(row) for row in r["reads"])
+                st["max_depth"] = max(st["max_depth"], depth)
+        if seen:
+            st["cases_with_open_binding"] += 1
+            st["via_binding_form" if c.get("bind") == "form" else "via_runtime_fns"] += 1
+    return st
